@@ -21,10 +21,10 @@ PROPERTY = "C03"
 LEVEL = "exploration"
 RULE = (
     "(a) PatchedCounts/PatchedSumWeights/NormalisedCounts x bins{1,2,3} x patches{2..5} x auto/cross x "
-    "contents {fingerprint 2^(iN+j)3^b, every single-cell array, every 0/1 array for N<=3}; "
+    "contents {fingerprint 2^(iN+j)3^b, every single-cell array, every 0/1 array for N<=3, auto containers with a full (not upper triangular) matrix}; "
     "(b) CorrFunc member subsets x auto/cross -> sample() and from_corrfuncs with {none,ref,unk,both}; "
     "(c) HistData.from_catalog on 2..4 patch catalogs; (d) all sample matrices over {0,1,2} with M*B<=6 "
-    "plus fingerprints and matrices with one NaN / inf entry in every position; normalised counts with all weight of a bin in one patch (0/0 samples; binary and decimal values); resample_jackknife directly on 2..400 (2000) patches; sampling again after PatchedCounts.set_patch_pair; and the same matrices on top of a common value 1e6 (exact shift invariance, tolerance 1e-8); (e) pipeline with patch k removed from all frames. Oracle: explicit-loop "
+    "plus fingerprints and matrices with one NaN / inf entry in every position; normalised counts with all weight of a bin in one patch (0/0 samples; binary and decimal values); resample_jackknife directly on 2..400 (2000) patches (also scaled by 2^-50 / 2^60); sampling again after PatchedCounts.set_patch_pair; and the same matrices on top of a common value 1e6 (exact shift invariance, tolerance 1e-8); (e) pipeline with patch k removed from all frames. Oracle: explicit-loop "
     "leave-one-out recomputation in patch-index order, (N-1)/N sum (x_k-mean)(x_k-mean)^T. Non-trivial: "
     "contents in which a permutation/loss of a patch changes some sample (asserted per case)."
 )
@@ -40,6 +40,10 @@ def cases(tier, seed):
     for B, N, auto in itertools.product((1, 2, 3), Ns, (False, True)):
         for T in ("PatchedCounts", "PatchedSumWeights", "NormalisedCounts"):
             out.append(dict(part="sum", T=T, B=B, N=N, auto=auto, content="fp"))
+        # auto containers whose counts are not upper triangular (e.g. after .patches[::-1])
+        if auto:
+            for T in ("PatchedCounts", "NormalisedCounts"):
+                out.append(dict(part="sum", T=T, B=B, N=N, auto=auto, content="fp", full_matrix=True))
         # first bin: catalog 1 has objects (weights, pairs) in patch 0 only - the sample without patch 0 is 0/0
         out.append(dict(part="sum", T="NormalisedCounts", B=B, N=N, auto=auto, content="fp", single_patch_weights=True))
         # the same with values that are no binary fractions (sums are rounded): sample 0 is still 0/0, not noise/noise
@@ -87,6 +91,9 @@ def cases(tier, seed):
     for N in (2, 3, 5, 127, 128, 129, 181, 182, 183, 200, 255, 256, 257, 300, 362, 363, 400) + ((1000, 2000) if tier == "thorough" else ()):
         for B in (1, 3):
             out.append(dict(part="resample", N=N, B=B))
+            if N <= 5:  # histograms of tiny or huge weights: the samples scale with them
+                out.append(dict(part="resample", N=N, B=B, scale=2.0**-50))
+                out.append(dict(part="resample", N=N, B=B, scale=2.0**60))
     # (e) end to end: remove patch k from every input frame and measure again (differential oracle)
     pas = ("b0", "w0", "n0") if tier == "quick" else ("c0", "b0", "w0", "n0", "f0")
     pbs = ("b1", "n0") if tier == "quick" else ("c1", "b1", "n0", "n1")
@@ -131,6 +138,8 @@ def run_sum(case):
     sw2 = sw1.copy() if auto else C.fp_sumw(B, N, 7)
     if T == "PatchedCounts":
         counts = build_counts(case)
+        if case.get("full_matrix"):
+            counts = counts + 5.0 * np.transpose(counts, (0, 2, 1)) * (1.0 - np.eye(N))
         x = C.make_counts(B, N, auto, counts=counts)
         ed, es = ref.ref_jackknife_sum(counts)
     elif T == "PatchedSumWeights":
@@ -141,6 +150,8 @@ def run_sum(case):
         es = ((N - 1) ** 2) / es
     else:
         counts = build_counts(case)
+        if case.get("full_matrix"):
+            counts = counts + 5.0 * np.transpose(counts, (0, 2, 1)) * (1.0 - np.eye(N))
         if case.get("single_patch_weights"):
             counts[0, 1:, :] = 0.0
             if auto:
@@ -189,6 +200,8 @@ def run_resample(case):
     N, B = case["N"], case["B"]
     obs = (np.arange(N)[:, None] * 7.0 + np.arange(B)[None, :] * 3.0 + 1.0) ** 2 % 1009.0 + np.arange(N)[:, None]
     want = obs.sum(axis=0)[None, :] - obs  # leave-one-out sums, exact in float64 (integers)
+    scale = case.get("scale", 1.0)  # a power of two: everything stays exact
+    obs, want = obs * scale, want * scale
     v = []
     for rows, arg in ((True, obs), (False, obs.T.copy())):
         try:
